@@ -220,6 +220,11 @@ class Spec:
         def ground_numbers(key):
             return PyVal("list", items=[bm.const_value(frac(x)) for x in spec.ground[key]])
 
+        def ghost_list(key, ident):
+            """a module-level constant list held as a heap list at a fixed negative reference; its length, every element and
+            (ground-checked) strict monotonicity are assumed facts"""
+            return PyVal("ghostlist", key=key, ident=ident, values=[frac(x) for x in spec.ground[key]])
+
         def charset(chars):
             return PyVal("charset", codes=sorted(ord(c) for c in chars))
 
@@ -230,7 +235,7 @@ class Spec:
             REAL=REAL, MONEY=MONEY, INT=INT, BOOL=BOOL, ATOM=ATOM, CHARS=CHARS, NONE=NONE, Ref=Ref, Opt=Opt, Tup=Tup, ListOf=ListOf, MapOf=MapOf,
             schema=schema, struct=struct, record=record, module_var=module_var, const=const, inline=inline, lock=lock,
             abstract_bool=abstract_bool, class_tag=class_tag, contract=contract, virtual=virtual, external=external, lemma=lemma,
-            abstract_property=abstract_property, dispatch=dispatch, MapOfDefault=MapOfDefault, grid=grid, ground_numbers=ground_numbers, charset=charset, clock=clock, Fraction=Fraction_,
+            abstract_property=abstract_property, dispatch=dispatch, MapOfDefault=MapOfDefault, grid=grid, ground_numbers=ground_numbers, ghost_list=ghost_list, charset=charset, clock=clock, Fraction=Fraction_,
         )
         # clause names must exist so that decorated bodies compile (they are never run)
         for k in CLAUSES:
